@@ -305,7 +305,7 @@ func coldFormatCheck(r *Report) {
 	}
 	for _, t := range []*coldTables{asc, desc} {
 		bad := func(ver string, s float32, what string) {
-			r.Violation(Case{Kind: "cold-warm", Key: "v" + ver + "/score/malformed@fresh-process-" + t.Order, Expected: "finite one-decimal score in range",
+			r.Violation(Case{Kind: "cold-format", Key: "v" + ver + "/score/malformed@fresh-process-" + t.Order, Expected: "finite one-decimal score in range",
 				Observed: fmt.Sprintf("%v for %s when the table is computed in %s order from a fresh process", s, what, t.Order), Args: map[string]any{"tier": r.Tier}}, nil)
 		}
 		for i, s := range t.V4 {
@@ -343,6 +343,16 @@ func closeTenth(s float32) bool {
 }
 
 func init() {
+	replayers["cold-format"] = func(c *Case) string {
+		tmp := NewReport(c.Property, argStr(c, "tier"), 0)
+		coldFormatCheck(tmp)
+		tmp.mu.Lock()
+		defer tmp.mu.Unlock()
+		if len(tmp.violations) > 0 {
+			return tmp.violations[0].Observed
+		}
+		return ""
+	}
 	replayers["cold-warm"] = func(c *Case) string {
 		asc, desc, err := runColdProcesses(argStr(c, "tier"))
 		if err != nil {
